@@ -446,11 +446,101 @@ func init() {
 				}
 			},
 		}
+		// long flat expressions around powers of two (buffers and chunks have such sizes): complete, cut
+		// before the last closer, and followed by surplus material
+		longSizes := []int{63, 64, 65, 127, 128, 129, 255, 256, 257, 511, 512, 513, 1023, 1024, 1025, 2048, 4095, 4096, 4097}
+		long := &vf.Family{
+			Name: "long-expressions", InProc: true,
+			Bounds: fmt.Sprintf("flat lists, vectors and nested lists of %v tokens: the complete text reads, the text cut before its last closer is reported incomplete with that closer, and the text followed by a surplus closer, a second expression or an open second expression is rejected with a different error", longSizes),
+			Setup:  func(t string) { tier = t },
+			N:      func(string) int64 { return int64(len(longSizes) * 3) },
+			Describe: func(i int64) string {
+				return fmt.Sprintf("%s of %d tokens", []string{"flat list", "flat vector", "nested lists"}[i%3], longSizes[i/3])
+			},
+			Run: func(i int64, r *vf.Rec) {
+				n := longSizes[i/3]
+				r.NT()
+				var toks []string
+				closer := ")"
+				switch i % 3 {
+				case 0:
+					toks = append(toks, "(")
+					for len(toks) < n-1 {
+						toks = append(toks, "a")
+					}
+					toks = append(toks, ")")
+				case 1:
+					closer = "]"
+					toks = append(toks, "[")
+					for len(toks) < n-1 {
+						toks = append(toks, "1")
+					}
+					toks = append(toks, "]")
+				default:
+					toks = append(toks, "(")
+					for len(toks)+3 <= n-1 {
+						toks = append(toks, "(", "b", ")")
+					}
+					for len(toks) < n-1 {
+						toks = append(toks, "c")
+					}
+					toks = append(toks, ")")
+				}
+				full := strings.Join(toks, " ")
+				if k, m, multi := c16Read(full, r); k != "ok" || multi {
+					r.Violation("complete long expression not accepted", fmt.Sprintf("%d tokens: %s %s", n, k, m))
+					return
+				}
+				cut := strings.Join(toks[:len(toks)-1], " ")
+				want := "expected '" + closer + "'" + c16EOF
+				if k, m, _ := c16Read(cut, r); k != "incomplete" || m != want {
+					r.Violation("incomplete long expression not reported as 'expected <closer>, got EOF'", fmt.Sprintf("%d tokens: want %q, got %s %q", n-1, want, k, m))
+					return
+				}
+				for _, tail := range []string{" )", " ]", " }", " (b)", " b", " (b", " [1 (2"} {
+					k, m, multi := c16Read(full+tail, r)
+					switch {
+					case k == "ok":
+						r.Violation("malformed input silently accepted", fmt.Sprintf("a complete expression of %d tokens followed by %q", n, tail))
+						return
+					case k == "panic":
+						r.Violation("reader panics on malformed input", fmt.Sprintf("%d tokens + %q: %s", n, tail, m))
+						return
+					case k == "incomplete" || multi:
+						r.Violation("malformed input reported as incomplete", fmt.Sprintf("a complete expression of %d tokens followed by %q: %s", n, tail, m))
+						return
+					}
+				}
+			},
+		}
+		// Go-constructor forms «type ...» are a bracket kind of this reader too: cut texts that contain one
+		ctorCuts := []struct{ text, closer string }{
+			{"«point 1 [2", "]"}, {"(def p «point 1 2", "»"}, {"[1 «point (+ 1 2", ")"}, {"«point", "»"}, {"«point {:a 1", "}"},
+			{"«point «inner 1", "»"}, {"#{«point 1", "»"},
+		}
+		ctors := &vf.Family{
+			Name: "constructor-forms-cut", InProc: true,
+			Bounds:   fmt.Sprintf("%d cut texts containing a Go-constructor form «type ...» (read without an environment): each is reported incomplete with the innermost open bracket's closer", len(ctorCuts)),
+			Setup:    func(t string) { tier = t },
+			N:        func(string) int64 { return int64(len(ctorCuts)) },
+			Describe: func(i int64) string { return strconv.Quote(ctorCuts[i].text) },
+			Run: func(i int64, r *vf.Rec) {
+				c := ctorCuts[i]
+				r.NT()
+				want := "expected '" + c.closer + "'" + c16EOF
+				k, m, multi := c16Read(c.text, r)
+				if k != "incomplete" || m != want {
+					r.ViolationCase("incomplete input not reported as 'expected <innermost closer>, got EOF'", strconv.Quote(c.text), fmt.Sprintf("want %q, got %s %q", want, k, m))
+				} else if !multi {
+					r.ViolationCase("REPL classifier does not recognise the incomplete-input error", strconv.Quote(c.text), m)
+				}
+			},
+		}
 		return &vf.Check{
 			ID: "C16", Level: "model_checking",
 			Rule:        "every well-formed expression of the bounded grammar is cut at every token boundary and extended/mutated by every closing bracket; an independent bracket-stack recogniser decides which cuts are completable by closers and names the innermost closer; the reader's error and the REPL's own multiLine verdict (through a test-only export) must match; non-trivial = the expression had at least one constrained cut",
 			Assumptions: []string{"cuts are at token boundaries; cuts ending in a prefix macro, an odd map or a non-string key are outside the property"},
-			Families:    []*vf.Family{fam, nested, sessions},
+			Families:    []*vf.Family{fam, nested, long, ctors, sessions},
 		}
 	})
 }
